@@ -65,7 +65,9 @@ func runLife(e *Env) {
 	cfg.Timeout = timeout
 	cfg.ConnectTimeout = 300 * time.Millisecond
 	cfg.ReconnectInterval = []time.Duration{0, time.Second}[tp.Next(2)]
-	cfg.ReconnectionPolicy = &gocql.ConstantReconnectionPolicy{MaxRetries: 2, Interval: 100 * time.Millisecond}
+	// (MaxRetries 0 - "do not retry", and what a policy literal that only sets the interval
+	// has - still means one attempt per connection)
+	cfg.ReconnectionPolicy = &gocql.ConstantReconnectionPolicy{MaxRetries: []int{2, 1, 0, 4}[tp.Next(4)], Interval: 100 * time.Millisecond}
 	cfg.MaxWaitSchemaAgreement = 2 * time.Second
 	withRetry := tp.Chance(1, 2)
 	if withRetry {
